@@ -368,11 +368,24 @@ def _update_level_gamma(ctx, rng, gamma_):
     solver = ref.solver
     n, E = len(dev.mesh.sites), solver.num_edges
     for rep in range(4 if ctx.quick else 30):
-        amp = float(rng.choice([0.3, 0.7, 1.2]))
+        amp = float(rng.choice([0.3, 0.7, 1.2, 2.0]))
         psi = amp * (rng.normal(size=n) + 1j * rng.normal(size=n)) / np.sqrt(2)
         mu = rng.normal(size=n) * rng.choice([0.0, 1.0])
-        res = solver.update({"step": 5 + rep, "time": 0.1, "dt": dt}, ref.rs, dt, psi=psi.copy(), mu=mu.copy(), supercurrent=np.zeros(E), normal_current=np.zeros(E),
-                            induced_vector_potential=np.zeros((E, 2)))
+        try:
+            res = solver.update({"step": 5 + rep, "time": 0.1, "dt": dt}, ref.rs, dt, psi=psi.copy(), mu=mu.copy(), supercurrent=np.zeros(E), normal_current=np.zeros(E),
+                                induced_vector_potential=np.zeros((E, 2)))
+        except RuntimeError as e:
+            # "never refused when a solution exists at every site": the discriminant of the state that was handed in
+            v0 = dict(psi=psi, abs_sq=np.abs(psi) ** 2, mu=mu, eps=np.asarray(solver.epsilon) * np.ones(n), gamma=solver.gamma, u=solver.u, dt=dt, M=solver.operators.psi_laplacian)
+            disc0 = oracle_zw(v0)[3]
+            ctx.case(("update-from-arbitrary-state", gamma_, rep, amp, "raised"), nontrivial=True)
+            if float(np.min(disc0)) > 1e-9:
+                rp = dict(call=rep, gamma=gamma_, amplitude=amp, min_discriminant=float(np.min(disc0)), max_abs_psi=float(np.abs(psi).max()), error=str(e)[:120])
+                ctx.fail("update:refused-although-solvable", f"gamma={gamma_}: TDGLSolver.update refused a state (max|psi| = {rp['max_abs_psi']:.2f}) whose site equations all have a solution "
+                         f"(smallest discriminant {rp['min_discriminant']:.3e}): {rp['error']}", rp)
+                first = first or dict(key="update:refused-although-solvable", what=rp["error"], **rp)
+                break
+            continue
         dt_out, psi2 = float(res[0]), np.asarray(res[1])
         v = dict(psi=psi, abs_sq=np.abs(psi) ** 2, mu=mu, eps=np.asarray(solver.epsilon) * np.ones(n), gamma=solver.gamma, u=solver.u, dt=dt_out, M=solver.operators.psi_laplacian)
         z, w, b, disc, az2, aw2 = oracle_zw(v)
@@ -415,8 +428,21 @@ def update_level_dynamic_epsilon(ctx):
         psi = 0.8 * (rng.normal(size=n) + 1j * rng.normal(size=n)) / np.sqrt(2)
         mu = rng.normal(size=n) * 0.3
         stale = np.array([eps_of_time(r, t=t_now - 0.21) for r in solver.sites])  # what the previous step reported
-        res = solver.update({"step": 3 + rep, "time": t_now, "dt": dt}, ref.rs, dt, psi=psi.copy(), mu=mu.copy(), supercurrent=np.zeros(E), normal_current=np.zeros(E),
-                            induced_vector_potential=np.zeros((E, 2)), epsilon=stale)
+        try:
+            res = solver.update({"step": 3 + rep, "time": t_now, "dt": dt}, ref.rs, dt, psi=psi.copy(), mu=mu.copy(), supercurrent=np.zeros(E), normal_current=np.zeros(E),
+                                induced_vector_potential=np.zeros((E, 2)), epsilon=stale)
+        except RuntimeError as e:
+            eps0 = np.array([eps_of_time(r, t=t_now) for r in solver.sites])
+            v0 = dict(psi=psi, abs_sq=np.abs(psi) ** 2, mu=mu, eps=eps0, gamma=solver.gamma, u=solver.u, dt=dt, M=solver.operators.psi_laplacian)
+            disc0 = oracle_zw(v0)[3]
+            ctx.case(("update-dynamic-epsilon", rep, "raised"), nontrivial=True)
+            if float(np.min(disc0)) > 1e-9:
+                rp = dict(call=rep, time=t_now, min_discriminant=float(np.min(disc0)), max_abs_psi=float(np.abs(psi).max()), error=str(e)[:120])
+                ctx.fail("update:refused-although-solvable", f"TDGLSolver.update (time-dependent epsilon) refused a state whose site equations all have a solution "
+                         f"(smallest discriminant {rp['min_discriminant']:.3e}): {rp['error']}", rp)
+                first = first or dict(key="update:refused-although-solvable", what=rp["error"], **rp)
+                break
+            continue
         dt_out, psi2 = float(res[0]), np.asarray(res[1])
         eps_now = np.array([eps_of_time(r, t=t_now) for r in solver.sites])
         v = dict(psi=psi, abs_sq=np.abs(psi) ** 2, mu=mu, eps=eps_now, gamma=solver.gamma, u=solver.u, dt=dt_out, M=solver.operators.psi_laplacian)
